@@ -1,6 +1,7 @@
 package main
 
 import (
+	"errors"
 	"flag"
 	"fmt"
 	"os"
@@ -27,8 +28,12 @@ func main() {
 		os.Exit(1)
 	}
 
+	// The flag set has already reported the problem and printed the usage.
 	if err := fs.Parse(os.Args[1:]); err != nil {
-		panic(err)
+		if errors.Is(err, flag.ErrHelp) {
+			os.Exit(0)
+		}
+		os.Exit(2)
 	}
 
 	// Update the verbosity level.
